@@ -242,6 +242,11 @@ impl<'a> LeafNode<'a> {
             self.cell_count()
         );
         let offset = self.slot_offset(index);
+        ensure!(
+            offset + SLOT_SIZE <= self.data.len(),
+            "slot {} lies beyond the page (corrupted cell count)",
+            index
+        );
         Slot::ref_from_bytes(&self.data[offset..offset + SLOT_SIZE])
             .map_err(|e| eyre::eyre!("failed to read slot at index {}: {:?}", index, e))
     }
@@ -414,6 +419,11 @@ impl<'a> LeafNodeMut<'a> {
             self.cell_count()
         );
         let offset = self.slot_offset(index);
+        ensure!(
+            offset + SLOT_SIZE <= self.data.len(),
+            "slot {} lies beyond the page (corrupted cell count)",
+            index
+        );
         Slot::ref_from_bytes(&self.data[offset..offset + SLOT_SIZE])
             .map_err(|e| eyre::eyre!("failed to read slot at index {}: {:?}", index, e))
     }
